@@ -164,7 +164,15 @@ NormLeaf(f, x) == CASE f.ann.ts = "UNIX_SECONDS" -> x.tokS [] f.ann.ts = "UNIX_M
 NormValF(s, f, x, fl) ==
   CASE x.t = "s"  -> [t |-> "s", tok |-> NormLeaf(f, x)]
     [] x.t = "l"  -> [t |-> "l", es |-> [i \in DOMAIN x.es |-> NormValF(s, f, x.es[i], fl)]]
-    [] x.t = "mp" -> [t |-> "mp", es |-> {<<x.es[i].k, NormValF(s, f, x.es[i].v, fl)>> : i \in DOMAIN x.es}]
+    \* map-value unwrap: "message can have other fields (but only the unwrap field is used)" - the
+    \* wrapper's other fields are a documented loss when it travels as a map value
+    [] x.t = "mp" -> [t |-> "mp", es |-> {<<x.es[i].k,
+                         LET v == x.es[i].v IN
+                         IF v.t = "m" /\ HasMsg(s, v.type) /\ HasUnwrap(MsgByName(s, v.type))
+                         THEN LET nm == NormMsgF(s, v, fl)
+                                  un == UnwrapFieldOf(MsgByName(s, v.type)).name
+                              IN [t |-> "m", fs |-> {<<q[1], IF q[1] = un THEN q[2] ELSE [t |-> "unset"]>> : q \in nm.fs}]
+                         ELSE NormValF(s, f, v, fl)>> : i \in DOMAIN x.es}]
     [] x.t = "m"  -> NormMsgF(s, x, fl)
 NormMsgF(s, x, fl) ==
   IF ~HasMsg(s, x.type) THEN [t |-> "s", tok |-> x.tok]
